@@ -53,6 +53,7 @@ class G(object):
         self.comments = rng.random() < 0.3       # XML comments / processing instructions sprinkled in
         self.odd_names = rng.random() < 0.3     # names / symbols / texts with non-ASCII and escaped characters
         self.foreign = opts.get('foreign') if opts.get('foreign') is not None else rng.random() < 0.4
+        self.foreign_ns = opts.get('foreign_ns') or FOREIGN_NS
         self.prefix = ''
         pf = opts.get('prefixed')
         if pf or (pf is None and rng.random() < 0.1):
@@ -122,6 +123,8 @@ class G(object):
         return self.rng.choice(WORDS)
 
     def phrase(self):
+        if self.rng.random() < 0.05:
+            return ''                                 # an empty element: no text
         return ' '.join(self.word() for _ in range(self.rng.randint(1, 3)))
 
     # ---- XML text helpers
@@ -145,8 +148,8 @@ class G(object):
             if not self.prefix and self.chance(0.3):
                 # the same thing with the foreign namespace as the default one of a subtree
                 tech = self.el('technique', [('profile', 'FOREIGN')],
-                               '<data xmlns="%s" mark="%s"><empty/></data>' % (FOREIGN_NS, esc(self.word())))
-            return self.el('extra', [], tech, extra_decl=' xmlns:f="%s"' % FOREIGN_NS)
+                               '<data xmlns="%s" mark="%s"><empty/></data>' % (esc(self.foreign_ns), esc(self.word())))
+            return self.el('extra', [], tech, extra_decl=' xmlns:f="%s"' % esc(self.foreign_ns))
         return self.el('extra', [], self.el('technique', [('profile', 'OTHER')],
                                             self.el('param', [('name', 'k'), ('type', 'float')], self.num())))
 
@@ -418,12 +421,20 @@ def render_camera(g, C):
 
 
 def gen_image(g):
-    return {'id': g.fid('img'), 'path': g.rng.choice(['./tex/%s.png', '%s.jpg', '../images/%s.tga']) % g.word()}
+    path = g.rng.choice(['./tex/%s.png', '%s.jpg', '../images/%s.tga']) % g.word()
+    r = g.rng.random()
+    if r < 0.06:
+        path = None                                   # <init_from/>
+    elif r < 0.12:
+        path = g.rng.choice(['', ' ', '\n  '])         # an empty / blank element
+    elif g.odd_ws and r < 0.45:
+        path = g.rng.choice([' ', '\n    ', '\t']) + path + g.rng.choice([' ', '\n  ', ''])
+    return {'id': g.fid('img'), 'path': path}
 
 
 def render_image(g, I):
     return g.el('image', [('id', I['id']), ('name', g.word() if g.chance(0.4) else None)],
-                g.asset_child() + g.el('init_from', [], esc(I['path'])))
+                g.asset_child() + g.el('init_from', [], None if I['path'] is None else esc(I['path'])))
 
 
 COLOR_PROPS = ['emission', 'ambient', 'diffuse', 'specular', 'reflective', 'transparent']
@@ -686,6 +697,9 @@ def gen_node(g, ctx, depth, inst_targets):
 
 def render_node(g, N):
     body = ''
+    if g.opts.get('foreign_in_nodes') and g.chance(0.35):
+        # a vendor element that is not wrapped in <extra> (the loader reports it: only for the namespace property)
+        body += '<v:thing xmlns:v="%s" v:a="1"><v:inner/></v:thing>' % esc(g.foreign_ns)
     for it in N['items']:
         t = it['t']
         body += g.note(0.03)
